@@ -49,7 +49,7 @@ def one(sid: str):
 
 def main():
     ids = sys.argv[1:] or sorted(p.name for p in (VERIF / "seeded").iterdir() if (p / "patch.diff").exists())
-    with ThreadPoolExecutor(4) as ex:
+    with ThreadPoolExecutor(12) as ex:
         results = list(ex.map(one, ids))
     missed = 0
     for sid, res in results:
